@@ -509,9 +509,7 @@ def recorded_instance(entry, run):
     for r in entry["reads"]:
         vs = [[col[p], a, q] for p, a, q in r["vars"]]
         reads.append({"sample": idx[r["sample_id"]], "vars": vs})
-    trios = []
-    if run["trio"]:
-        trios = [[order.index("father"), order.index("mother"), order.index("child")]]
+    trios = pedigree_trios(entry)
     priors = [[entry["priors"][s][str(c)] for c in range(len(pos))] for s in order]
     inst = {"ncols": len(pos), "nind": len(order), "trios": trios, "reads": reads, "priors": priors,
             "recomb": entry["recomb"]}
@@ -523,18 +521,20 @@ def recorded_instance(entry, run):
 
 
 def pedigree_order(entry, sid):
-    # Pedigree::toString lists the individuals in index order with their numeric ids
+    """Pedigree::toString lists "individuals (index,id): 0,1 1,2 2,0" and the triples by index."""
     txt = entry["pedigree"]
-    ids = [int(x) for x in re.findall(r"(?m)^\s*(?:individual|id)?\s*(\d+)\b", txt)]
+    m = re.search(r"individuals \(index,id\):((?: \d+,\d+)*)", txt)
+    pairs = sorted((int(i), int(d)) for i, d in re.findall(r"(\d+),(\d+)", m.group(1)))
     inv = {v: k for k, v in sid.items()}
-    order = [inv[i] for i in ids if i in inv]
-    seen = []
-    for s in order:
-        if s not in seen:
-            seen.append(s)
-    if sorted(seen) != sorted(sid):
-        raise RuntimeError("cannot recover pedigree order from: " + txt)
-    return seen
+    order = [inv[d] for _, d in pairs]
+    if sorted(order) != sorted(sid) or [i for i, _ in pairs] != list(range(len(pairs))):
+        raise RuntimeError("cannot recover pedigree order from: " + txt[:300])
+    return order
+
+
+def pedigree_trios(entry):
+    line = re.search(r"triples by index \(father,mother,child\):([^\n]*)", entry["pedigree"]).group(1)
+    return [[int(a), int(b), int(c)] for a, b, c in re.findall(r"\((\d+),(\d+),(\d+)\)", line)]
 
 
 def cli_term(inst, thr, calls):
